@@ -197,6 +197,7 @@ struct Ex {
             KV kv{{"kind", kind}, {"name", nm}, {"t", ty(x->getType())}};
             if (kind != "enum" && kind != "fn") kv.push_back({"id", declId(D)});
             if (global) kv.push_back({"global", true});
+            if (isa<FieldDecl>(D) || isa<CXXMethodDecl>(D)) kv.push_back({"q", D->getQualifiedNameAsString()});    // `&S::f`
             return node("ref", std::move(kv));
         }
         if (auto *x = dyn_cast<MemberExpr>(e)) {
